@@ -25,14 +25,16 @@ CONSTANTS GMaxBlocks, GPads,
           FlagSets1,       \* flag sets of the first member: a set of subsets of FlagNames
           FlagSets2,       \* flag sets of later members
           GMaxMembers,     \* 1..3
-          FieldVariants    \* subset of {"short", "empty", "long"}: contents of the optional fields
+          FieldVariants,   \* subset of {"short", "empty", "long"}: contents of the optional fields
+          GDataSet         \* the byte strings a block may carry (cfg: GDataSet <- GDataSmall or GDataAll)
 
 FlagNames == {"FTEXT", "FHCRC", "FEXTRA", "FNAME", "FCOMMENT"}
 AllFlagSets == SUBSET FlagNames
 FewFlagSets == { {}, {"FNAME"}, {"FHCRC", "FEXTRA", "FCOMMENT"}, FlagNames }
-GData == { <<>>, <<0>>, <<255, 1>>, <<143, 144, 128>> }
+GDataAll == { <<>>, <<0>>, <<255, 1>>, <<143, 144, 128>> }
+GDataSmall == { <<>>, <<255, 1>> }
 
-D == INSTANCE DeflateStored WITH MaxBlocks <- GMaxBlocks, DataChoices <- GData, Pads <- GPads, c <- <<>>
+D == INSTANCE DeflateStored WITH MaxBlocks <- GMaxBlocks, DataChoices <- GDataSet, Pads <- GPads, c <- <<>>
 
 Tab32 == FastTabOf(PolyCrc32)            \* evaluated once by TLC
 Crc32LE(bs) == Crc32LEWith(Tab32, bs)
